@@ -8,6 +8,7 @@
 (*             the majority by count arises from pattern "b")                                 *)
 (*   hyper-parameters: criteria x max_depth (Depths, 9 = None) x Profiles of                  *)
 (*             (min_weight_split, min_weight_leaf, min_impurity_decrease)                     *)
+(*   layout  : with 2 features the records are handed over in one of 7 memory layouts (hash)  *)
 (*   Big = TRUE : the f32 family  value = 2^24 + 2 v  (neighbouring representable numbers,    *)
 (*             the midpoint of two of them is not representable)                            *)
 (* Thinning (deterministic): a dataset is used iff Hash(dataset) % Mod = Sel; PerData = 0     *)
@@ -63,6 +64,10 @@ Pick(S, k) == Nth(S, k % Cardinality(S))
 
 LabelType(h, k) == IF k <= 2 THEN <<"usize", "bool", "string">>[(h % 3) + 1] ELSE <<"usize", "string">>[(h % 2) + 1]
 
+\* record layout handed to fit / predict (same logical matrix); only varied with >= 2 features
+Layouts == <<"std", "forder", "tview", "revrows", "revcols", "everyrow2", "everycol2">>
+Layout(h) == IF Dim >= 2 THEN Layouts[(h % 7) + 1] ELSE "std"
+
 Scale == IF Big THEN [off |-> 16777216, mul |-> 2, pm |-> 4, plo |-> 0, phi |-> MaxV]
          ELSE [off |-> 0, mul |-> 1, pm |-> 1, plo |-> -1, phi |-> 2 * MaxV + 1]
 
@@ -87,6 +92,7 @@ Init ==
                              mws4 |-> Prof(pr)[1], mwl4 |-> Prof(pr)[2], mid6 |-> Prof(pr)[3],
                              lt |-> LabelType(h \div 2, MaxUpTo(ys, n) + 1),
                              ft |-> IF Big THEN "f32" ELSE IF (h \div 7) % 2 = 0 THEN "f64" ELSE "f32",
+                             lay |-> Layout(h \div 11),
                              scale |-> Scale]]
 
 Next == UNCHANGED case
